@@ -251,6 +251,22 @@ P('C05',
   thorough=dict(cases=10000000, max_size=4000, max_seconds=1500, fuzz=dict(seconds=300, jobs=8, max_len=4000)),
   )
 
+P('C01',
+  states_termination=True,
+  extra_c=['ttx_shim.c'],
+  technique='fuzzing and property-based testing under ASan / UBSan: structure-aware generated operation lists (semi-valid Teletext, Caption, XDS, ITV trigger, VPS, WSS lines interleaved with every read side call), coverage guided libFuzzer stage over the same choice sequences; oracle = sanitizers, asserts, watchdog, allocation accounting',
+  rule='operation list of up to ~400 operations on one decoder: frames of 1-8 sliced lines built protocol-valid first (Teletext headers incl. MIP / MOT / BTT / trigger / hex / filler pages, rows, X/26 '
+       'with all triplet modes, X/27/0-5, X/28, M/29, 8/30, Hamming coded page bodies; Caption commands, XDS packets incl. odd and over-long, ITV trigger strings; VPS, WSS, unknown ids) then '
+       'corrupted, time steps (regular, zero, jumps, backwards), and read side calls (fetch at every level, caption fetch, classify, title, links, cache queries, every export module, print, draw '
+       'into exactly sized canvases, search, channel switch, handler changes, setters). Non-trivial: a page was cached or a caption character placed and a read side call succeeded on it; distinct = hash of consumed choices.',
+  level_text='Generated-input search: any AddressSanitizer / UndefinedBehaviorSanitizer report, assertion abort or (confirmed by three replays) hang is a violation; while running the allocation must stay below '
+             'a bound linear in the lines fed, a repeated periodic broadcast must reach a steady allocation, and after vbi_decoder_delete the allocated byte count must be back at its value before the case. Sampling only.',
+  level_note='Trusted: sanitizer runtimes; UBSan bounds check disabled for vbi_format_vt_page only (support/ubsan-ignorelist.txt). Known findings of the component properties (C09 XDS slot aliasing, C17 ure overlapping symbols) are not oracle failures here because C01 only judges memory safety, termination and leaks.',
+  design_ref='DESIGN.md section 2, C01',
+  quick=dict(cases=700000, max_size=6000, max_seconds=150),
+  thorough=dict(cases=20000000, max_size=6000, max_seconds=1800, fuzz=dict(seconds=600, jobs=16, max_len=6000)),
+  )
+
 NOT_YET = {}
 
 
